@@ -89,8 +89,16 @@ func (h *H) replyShapes(rng *gen.Rng, mask uint32) []replyShape {
 		switch val {
 		case 1, 2:
 			decrpmAnn = cap
-		case 3, 4:
-			decrpmAnn = "?" // permanently set / reset: not pinned down by the property
+		case 3:
+			// permanently set: the mode is in force. For 2027 that is an advertisement (Spec/Startup.decrpmKnown);
+			// for the two modes Vaxis would have to switch on itself it is not pinned down by the property
+			decrpmAnn = "?"
+			if mode == 2027 {
+				decrpmAnn = cap
+			}
+		case 4:
+			// permanently reset: the terminal knows the number but the mode can never be set — nothing to announce
+			decrpmAnn = "-"
 		}
 	}
 	geomP := n(0, 3)
